@@ -120,7 +120,37 @@ def flat_ops(items, path=()):
                 yield from flat_ops(a, path + (("alt", lab),))
 
 
-def linearisations(items, limit=96, choice=None):
+def _merge(a, b):
+    d = dict(a or {})
+    d.update(b or {})
+    return d
+
+
+def _compatible(ch):
+    """a joint choice of alternatives is impossible when one arm is labelled `P[x:A,B]` (taken only if x is A or B) or
+    `P[x:!A,B]` and another case split, whose labels are values of x, chose differently"""
+    import re as _re
+    chosen = {key: key[idx] for key, idx in ch.items()}
+    for key, lab in chosen.items():
+        for part in lab.split("|"):
+            m = _re.search(r"\[(\w+):(!?)([\w,]+)\]$", part)
+            if not m:
+                continue
+            vals = set(m.group(3).split(","))
+            for key2, lab2 in chosen.items():
+                if key2 is key:
+                    continue
+                universe = {l.split("[")[0] for k in key2 for l in k.split("|")}
+                if not vals <= universe:
+                    continue
+                picked = {l.split("[")[0] for l in lab2.split("|")}
+                inside = bool(picked & vals)
+                if (m.group(2) == "" and not inside) or (m.group(2) == "!" and picked <= vals):
+                    return False
+    return True
+
+
+def linearisations(items, limit=96, choice=None, outer=None):
     """the alternative straight-line sequences of a template (alts expanded, reps kept as items).
     Alternatives that come from the same case split (identical label tuple, e.g. the three parts
     (pre_code, current, post_code) of `match target`) are chosen together."""
@@ -138,7 +168,8 @@ def linearisations(items, limit=96, choice=None):
             if len(out) >= limit:
                 return
             if gi == len(groups):
-                out.extend(linearisations(items, limit, dict(ch)))
+                if _compatible(_merge(outer, ch)):
+                    out.extend(linearisations(items, limit, dict(ch), outer))
                 return
             for idx in range(len(groups[gi])):
                 ch[groups[gi]] = idx
@@ -153,10 +184,16 @@ def linearisations(items, limit=96, choice=None):
             a = it[1][choice[key]] if choice[key] < len(it[1]) else []
             new = []
             for s in seqs:
-                for sub in linearisations(a, limit):
+                for sub in linearisations(a, limit, None, _merge(outer, choice)):
                     new.append(s + sub)
             seqs = new[:limit]
         else:
+            if it[0] == "op":
+                # an operand that is itself an alternative of the same case split takes the chosen value
+                allc = _merge(outer, choice)
+                ops = [(o[1][allc[tuple(o[2])]] if isinstance(o, tuple) and o and o[0] == "altval" and tuple(o[2]) in allc
+                        and allc[tuple(o[2])] < len(o[1]) else o) for o in it[2]]
+                it = (it[0], it[1], ops) + tuple(it[3:])
             seqs = [s + [it] for s in seqs]
     return seqs
 
